@@ -427,3 +427,24 @@ def replay_guard(here, job, r, f, trace, log):
 
 
 REPLAYERS["guard"] = replay_guard
+
+
+def replay_distances(here, job, r, f, trace, log):
+    """C13 plain harnesses: the counterexample fixes the entry point and the clause; the public entry points are then
+    enumerated natively on small inputs against an oracle written from the documentation (replay/distances_replay.c)"""
+    fn = job.entry.replace("hp_", "")
+    mode = "transform" if "transform" in fn else "add" if "distances_add" in fn else None
+    if not mode:
+        return False, "no native replay for %s (static function or list surgery): the verifier's trace is in this file" % fn, {"function": fn}
+    exe, err = _build_native(here, "distances_replay.c", "distances_replay")
+    if not exe:
+        return False, "native replay build failed: " + err, {"function": fn}
+    try:
+        p = subprocess.run([exe, mode], capture_output=True, text=True, timeout=120)
+    except subprocess.TimeoutExpired:
+        return True, "REPRODUCED: native call did not terminate within 120 s", {"function": fn, "argv": [mode]}
+    return p.returncode == 1, (p.stdout + p.stderr).strip()[-800:], {"function": fn, "argv": [mode]}
+
+
+REPLAYERS["distances"] = replay_distances
+
